@@ -194,6 +194,56 @@ Proof.
   destruct L as (La & _ & Lprev & Lp & _ & Lr & Ll). repeat split; assumption.
 Qed.
 
+(* ---- every processing step of every history starts from a Ready state (C02, C03, C04, C07, C11) ----
+   update()/react() process requests exactly once, at their end, from a state s5 reached by callbacks that applied no
+   transition; immediateChangeTo()/immediateChangeWith() process right after storing their request. In both cases s5 is
+   Ready, so every statement made about [process_request] on Ready states - the exact description of the guard rounds
+   and their survivor (C02/C03), the bound and the left-over (C04), the payload carried along (C07), the previous
+   transition (C11) - holds for every processing step of every in-contract history. *)
+Definition is_processing_op (op : api_op P) : bool :=
+  match op with OUpdate _ | OReact _ | OImmChange _ _ | OImmChangeWith _ _ _ => true | _ => false end.
+
+Theorem every_processing_step_of_every_history lg pre op post :
+  ops_ok P cfg orc (construct P cfg orc lg) (pre ++ op :: post) ->
+  is_processing_op op = true ->
+  let s := run P cfg orc lg pre in
+  let a := active P (co P s) in
+  exists s5,
+    Ready P cfg s5 a /\
+    run P cfg orc lg (pre ++ [op]) = process_request P cfg orc s5 /\
+    exists l, tr P s5 = l ++ tr P s /\ quiet P cfg a l.
+Proof.
+  intros Hok Hop. pose proof (at_every_call lg pre op post Hok) as H. cbv zeta in H |- *.
+  destruct H as (I & Hc & R & Es & _). rewrite Es.
+  destruct op; cbn [is_processing_op] in Hop; try discriminate; cbn [step fst in_contract] in *.
+  - (* update *)
+    destruct (cycle_processes_last P cfg orc Hcfg Hwf MPreUpdate MUpdate MPostUpdate _ _ eq_refl eq_refl eq_refl (R Hc)) as (s5 & E & R5 & L).
+    exists s5. split; [exact R5|]. split; [exact E|exact L].
+  - (* react *)
+    destruct (cycle_processes_last P cfg orc Hcfg Hwf MPreReact MReact MPostReact _ _ eq_refl eq_refl eq_refl (R Hc)) as (s5 & E & R5 & L).
+    exists s5. split; [exact R5|]. split; [exact E|exact L].
+  - (* immediateChangeTo *)
+    destruct Hc as [Hon Hd]. destruct (R Hon) as (_ & Han & Hq & Hrw & Hpi).
+    pose proof (request_is_lazy P cfg d None (run P cfg orc lg pre)) as L. cbv zeta in L.
+    destruct L as (La & Lq & _ & Lp & _ & Lr & (l & El & _ & Fl)).
+    exists (change_to P cfg d None (run P cfg orc lg pre)). split; [|split; [reflexivity|]].
+    + split; [exact La|]. split; [exact Han|]. split; [rewrite Lq; exact Hq|]. split.
+      * unfold RW. rewrite Lr. cbn [t_dest]. intros _. exact Hd.
+      * rewrite Lp. exact Hpi.
+    + exists l. split; [exact El|]. eapply Forall_impl; [|exact Fl].
+      intros e He. destruct e; cbn in He |- *; try contradiction; exact Logic.I.
+  - (* immediateChangeWith *)
+    destruct Hc as [Hon Hd]. destruct (R Hon) as (_ & Han & Hq & Hrw & Hpi).
+    pose proof (request_is_lazy P cfg d (Some p) (run P cfg orc lg pre)) as L. cbv zeta in L.
+    destruct L as (La & Lq & _ & Lp & _ & Lr & (l & El & _ & Fl)).
+    exists (change_to P cfg d (Some p) (run P cfg orc lg pre)). split; [|split; [reflexivity|]].
+    + split; [exact La|]. split; [exact Han|]. split; [rewrite Lq; exact Hq|]. split.
+      * unfold RW. rewrite Lr. cbn [t_dest]. intros _. exact Hd.
+      * rewrite Lp. exact Hpi.
+    + exists l. split; [exact El|]. eapply Forall_impl; [|exact Fl].
+      intros e He. destruct e; cbn in He |- *; try contradiction; exact Logic.I.
+Qed.
+
 End H.
 
 (* ============================================================================================================
